@@ -9,6 +9,7 @@ package core
 import (
 	"context"
 	"fmt"
+	"strings"
 	"testing"
 
 	"github.com/openbao/openbao/sdk/v2/helper/verif/vout"
@@ -212,4 +213,149 @@ func TestVerifC10Core(t *testing.T) {
 		res.Add("states", 1)
 		res.Sample(map[string]interface{}{"operation": what, "durable_mutations": nmut})
 	}
+}
+
+// ---- H: histories of key-management operations on a live Core ------------------
+//
+// Every sequence (depth <= 2 quick / 3 thorough) over {generate-root attempt with
+// forged shares (rejected), generate-root with the genuine shares, encryption-key
+// rotation, share-less root-key rotation, rekey(5,3)}; after EVERY step the store
+// is shut down and must unseal with the shares the operator holds at that moment,
+// and every earlier entry must read back.
+
+func c10GenRoot(s *Sys, keys [][]byte, forge bool) (completed bool, err error) {
+	ctx := rootCtx()
+	_ = s.Core.GenerateRootCancel(ctx)
+	err = s.Core.GenerateRootInit(ctx, strings.Repeat("k", vault.TokenLength+vault.TokenPrefixLength), "", vault.GenerateStandardRootTokenStrategy)
+	if err != nil {
+		return false, fmt.Errorf("generate-root init: %v", err)
+	}
+	conf, cerr := s.Core.GenerateRootConfiguration(ctx)
+	if cerr != nil || conf == nil {
+		return false, fmt.Errorf("no generate-root configuration: %v", cerr)
+	}
+	for _, k := range keys {
+		kk := vault.TestKeyCopy(k)
+		if forge {
+			kk[len(kk)-1] ^= 0x5a // same x-coordinate / length, different value
+			kk[0] ^= 0x01
+		}
+		r, uerr := s.Core.GenerateRootUpdate(ctx, kk, conf.Nonce, vault.GenerateStandardRootTokenStrategy)
+		if uerr != nil {
+			_ = s.Core.GenerateRootCancel(ctx)
+			return false, nil // rejected
+		}
+		if r != nil && r.EncodedToken != "" {
+			return true, nil
+		}
+	}
+	_ = s.Core.GenerateRootCancel(ctx)
+	return false, nil
+}
+
+func TestVerifC10CoreHist(t *testing.T) {
+	res := vout.New("C10", "corehist")
+	defer func() {
+		if err := res.Write(); err != nil {
+			t.Fatal(err)
+		}
+	}()
+	if vout.ReplayPath() != "" {
+		return
+	}
+	img := c10Image(t)
+	alphabet := []string{"genroot-forged", "genroot", "rotate", "rotate-root", "rekey"}
+	depth := 2
+	if vout.Thorough() {
+		depth = 3
+	}
+	res.Bound("history_depth", depth)
+	res.Bound("alphabet", alphabet)
+	count := 0
+	var rec func(h []string)
+	rec = func(h []string) {
+		if len(h) > 0 {
+			count++
+			if vout.Mine(count) {
+				s := Boot(t, img)
+				held := img.Keys
+				art := map[string]interface{}{"history": h}
+				sig := ""
+				for i, op := range h {
+					switch op {
+					case "genroot-forged":
+						done, err := c10GenRoot(s, held, true)
+						if err != nil {
+							t.Fatalf("harness: %v", err)
+						}
+						if done {
+							sig = "generate-root-accepted-forged-shares"
+						}
+					case "genroot":
+						done, err := c10GenRoot(s, held, false)
+						if err != nil {
+							t.Fatalf("harness: %v", err)
+						}
+						if !done {
+							sig = "generate-root-refused-genuine-shares"
+						}
+					case "rekey":
+						s.Keys = held
+						shares, err := c10Act(s, "rekey")
+						if err != nil {
+							sig = "rekey-failed"
+							res.Note("history %v step %d: rekey failed: %v", h, i, err)
+						} else {
+							held = shares
+						}
+					default:
+						if _, err := c10Act(s, op); err != nil {
+							sig = op + "-failed"
+							res.Note("history %v step %d: %s failed: %v", h, i, op, err)
+						}
+					}
+					if sig != "" {
+						break
+					}
+					res.Add("transitions", 1)
+					// shut down, unseal with the held shares, read back
+					snap := s.Phys.Snapshot()
+					sx, err := BootSealed(t, snap, img)
+					if err != nil {
+						t.Fatalf("harness: %v", err)
+					}
+					ok, uerr := sx.TryUnseal(held)
+					if !ok {
+						sig = "unsealable-with-held-shares"
+						res.Violate("c10:corehist:"+sig, fmt.Sprintf("history %v: after step %d (%s) a shut-down store does not unseal with the shares the operator holds: %v", h, i, op, uerr), art)
+					} else if resp, err := sx.Req(sx.Root, logical.ReadOperation, "rec/kv/a", nil); !OK(resp, err) || resp == nil || resp.Data["value"] != "EARLIER" {
+						sig = "entry-lost"
+						res.Violate("c10:corehist:"+sig, fmt.Sprintf("history %v: after step %d (%s) the earlier entry does not read back (%s)", h, i, op, ErrText(resp, err)), art)
+					}
+					sx.Close()
+					if sig != "" {
+						break
+					}
+				}
+				if sig != "" && !strings.HasPrefix(sig, "unsealable") && sig != "entry-lost" {
+					if strings.HasPrefix(sig, "generate-root") {
+						res.Violate("c10:corehist:"+sig, fmt.Sprintf("history %v: %s", h, sig), art)
+					} else {
+						res.Add("histories_cut_short_by_refusal", 1)
+					}
+				}
+				res.Add("executions", 1)
+				res.Add("states", 1)
+				res.Distinct("nontrivial", fmt.Sprintf("H|%v|%s", h, sig))
+				s.Close()
+			}
+		}
+		if len(h) == depth {
+			return
+		}
+		for _, op := range alphabet {
+			rec(append(append([]string{}, h...), op))
+		}
+	}
+	rec(nil)
 }
